@@ -36,7 +36,7 @@ def _exprish(n):
 
 TARGETS = {
     'cast': lambda n: getattr(n, 'is_expression', False),
-    'but_changed': lambda n: astx.cname(n) in ('HplBinaryOperator', 'HplUnaryOperator', 'HplQuantifier', 'HplRange', 'HplPattern', 'HplSimpleEvent', 'HplProperty', 'HplPredicateExpression'),
+    'but_changed': lambda n: astx.cname(n) in ('HplBinaryOperator', 'HplUnaryOperator', 'HplQuantifier', 'HplRange', 'HplPattern', 'HplSimpleEvent', 'HplProperty', 'HplPredicateExpression', 'HplSet', 'HplFunctionCall', 'HplArrayAccess', 'HplScope'),
     'but_domain': lambda n: astx.cname(n) == 'HplQuantifier',
     'replace_var_lit': lambda n: hasattr(n, 'replace_var_reference') and any(astx.cname(x) == 'HplVarReference' for x in astx.preorder(n)),
     'replace_self': lambda n: _exprish(n),
@@ -286,7 +286,27 @@ class Pool:
         if c == 'HplQuantifier':
             return self._checked_but(node, {'quantifier': 'exists' if node.is_universal else 'forall'})
         if c == 'HplRange':
+            if x % 2:
+                cand = [n for d in donors for n in astx.preorder(d) if getattr(n, 'is_expression', False) and n is not node.max_value and n.data_type.can_be_number]
+                if cand:
+                    return self._checked_but(node, {'max_value': cand[x % len(cand)]})
             return self._checked_but(node, {'exclude_min': not node.exclude_min})
+        if c == 'HplSet':
+            cand = [n for d in donors for n in astx.preorder(d) if getattr(n, 'is_expression', False) and n.data_type.value & 7]
+            if cand:
+                return self._checked_but(node, {'values': tuple(node.values) + (cand[x % len(cand)],)})
+        if c == 'HplFunctionCall' and len(node.arguments) == 1:
+            cand = [n for d in donors for n in astx.preorder(d) if getattr(n, 'is_expression', False) and n is not node.arguments[0] and n.data_type.can_be(node.arguments[0].data_type)]
+            if cand:
+                return self._checked_but(node, {'arguments': (cand[x % len(cand)],)})
+        if c == 'HplArrayAccess':
+            cand = [n for d in donors for n in astx.preorder(d) if getattr(n, 'is_expression', False) and n is not node.index and n.data_type.can_be_number]
+            if cand:
+                return self._checked_but(node, {'index': cand[x % len(cand)]})
+        if c == 'HplScope' and node.activator is not None:
+            evs = [n for d in donors for n in astx.preorder(d) if astx.cname(n) in ('HplSimpleEvent', 'HplEventDisjunction') and n is not node.activator]
+            if evs:
+                return self._checked_but(node, {'activator': evs[x % len(evs)]})
         if c == 'HplPattern':
             return self._checked_but(node, {'max_time': float(1 + x % 5)})
         if c == 'HplSimpleEvent':
